@@ -125,7 +125,8 @@ class ListenerModel:
             if _is_ident_text(t):
                 return const(k)
             return None
-        return Evaluator(self.repo, AGG_MOD, self.cls, rewrite=rewrite, opaque_methods=("clean_doc_lines",))
+        return Evaluator(self.repo, AGG_MOD, self.cls, rewrite=rewrite, opaque_methods=("clean_doc_lines",),
+                         list_terms=(self.entries, self.defstack, self.clsstack, self.consumed))
 
     def rows(self, event: str, k: str) -> List[Row]:
         key = (event, k)
